@@ -540,8 +540,9 @@ def build_corpus():
 def register_harness():
     from prettyprinter import register_pretty, pretty_call, install_extras
     # bundled extras: predicate printers with their own module state
-    install_extras(include=['dataclasses', 'ipython_repr_pretty'] + (['attrs'] if APoint else []),
-                   raise_on_error=True)
+    # one at a time: install_extras walks a *set* of names, whose order would depend on PYTHONHASHSEED
+    for extra in ['dataclasses', 'ipython_repr_pretty'] + (['attrs'] if APoint else []):
+        install_extras(include=[extra], raise_on_error=True)
 
     @register_pretty(HBase.__module__ + '.' + HBase.__qualname__)
     def pb(v, ctx):
